@@ -21,8 +21,8 @@ STRICT = os.environ.get("VERIF_C14_STRICT", "") not in ("", "0")
 
 RULE = ("exhaustive small shapes: clean-up of every ordered pair of faces "
         "over 3 points + 1 isolated point under 3 position layouts x all 16 option subsets (thorough: also every "
-        "triple under 3 option sets), strips of every pair of faces over 4 points, and over 5 points two of which share a position "
-        "(attribute seams at one end of an edge), in both modes (thorough: a 1/16 resp. 1/128 class of the triples), deduplication of 4 points under every pair of "
+        "triple under all 16 option sets), strips of every pair of faces over 4 points, and over 5 points two of which share a position "
+        "(attribute seams at one end of an edge), in both modes (thorough: a 1/4 resp. 1/64 class of the triples), deduplication of 4 points under every pair of "
         "point->value maps of two attributes; plus random triangle soups / meshes / point sets with 1..5 attributes over all 11 data types and 1..6 components, "
         "values drawn from small pools (duplicate-heavy) containing +0.0/-0.0, NaNs with equal and different payloads, "
         "infinities, denormals, integer extremes; identity and explicit point->value maps, unused values, unused "
@@ -396,8 +396,8 @@ def strict_tag(mout):
     return "unsupported_type_duplicates_kept" if bad else "strict_clauses_hold"
 
 
-def make_case(line, tags=()):
-    c = Case(line, oracle=oracle, expect=expect, tags=tags)
+def make_case(line, tags=(), flavour="plain"):
+    c = Case(line, oracle=oracle, expect=expect, tags=tags, flavour=flavour)
     c.model = model_line(c)
     c.spec = spec
     c.mtag = strict_tag
@@ -516,7 +516,7 @@ def exhaustive_cases(rng, thorough):
         atts = pos_layouts[1][1]()
         for faces in all_face_lists(3, 3):
             txt = tiny_mesh(faces, 4, atts)
-            for bits in (2, 3, 7):
+            for bits in range(16):
                 out.append((f"cleanup {bits} {txt}", ("exhaustive_cleanup_3x3", f"opts{bits}")))
     # strips: every pair (thorough: a class of the triples) of faces over 4 points; point 3 may alias the position
     # of point 0 (an attribute seam) — both output modes
@@ -532,16 +532,16 @@ def exhaustive_cases(rng, thorough):
                 out.append((f"strips {mode} {txt}", (f"exhaustive_strips_2x{npnt}", name)))
     if thorough:
         triples = all_face_lists(4, 3)
-        off = rng.randrange(16)
+        off = rng.randrange(4)
         name, npnt, atts = strip_layouts[0]
-        for faces in triples[off::16]:
+        for faces in triples[off::4]:
             txt = tiny_mesh(faces, 4, atts)
             for mode in (0, 1):
                 out.append((f"strips {mode} {txt}", ("class_strips_3x4", name)))
         triples = all_face_lists(5, 3)
-        off = rng.randrange(128)
+        off = rng.randrange(64)
         name, npnt, atts = strip_layouts[1]
-        for faces in triples[off::128]:
+        for faces in triples[off::64]:
             txt = tiny_mesh(faces, 5, atts)
             for mode in (0, 1):
                 out.append((f"strips {mode} {txt}", ("class_strips_3x5", name)))
@@ -560,7 +560,7 @@ def exhaustive_cases(rng, thorough):
 
 def generate(rng, tier):
     thorough = tier == "thorough"
-    mult = 16 if thorough else 4
+    mult = 40 if thorough else 4
     cases = [make_case(w, tags=("witness",)) for w in WITNESSES]
     for line, tags in exhaustive_cases(rng, thorough):
         cases.append(make_case(line, tags=tags))
@@ -580,7 +580,12 @@ def generate(rng, tier):
         if g is not None:
             assert g.valid() is None, (g.valid(), line[:200])
             t |= geom_tags(g)
-        cases.append(make_case(line, tags=tuple(sorted(t))))
+        # a quarter of the random cases runs under ASan/UBSan: the utilities index without checks, a valid input
+        # must never make them touch memory outside their buffers
+        fl = "asan" if rng.random() < 0.25 else "plain"
+        if fl == "asan":
+            t.add("asan")
+        cases.append(make_case(line, tags=tuple(sorted(t)), flavour=fl))
 
     # --- deduplication
     for op in ("dedupv", "dedupp", "dedupvp"):
@@ -642,4 +647,5 @@ def generate(rng, tier):
 
 
 def replay_cases(lines):
-    return [make_case(l, tags=("replay",)) for l in lines]
+    # both flavours: a crash found under ASan must replay under ASan
+    return [make_case(l, tags=("replay", fl), flavour=fl) for l in lines for fl in ("plain", "asan")]
